@@ -14,6 +14,8 @@ Definition supply_changing (w : world) (o : op) : list asset :=
   | OProvide p _ _ _ _ _ _ _ _ => lp_of w p
   | OSend ta _ target _ HWithdraw => [AToken ta]
   | OPairReceive p _ _ _ _ HWithdraw => lp_of w p
+  | OBurnFrom ta _ _ _ => [AToken ta]
+  | OSendFrom ta _ _ target _ HWithdraw => [AToken ta]
   | _ => []
   end.
 
@@ -315,6 +317,45 @@ Proof.
     + intros t ->. apply Hl. cbn [In]. right. right. apply in_app_iff. right. cbn [opt_list In]. auto.
 Qed.
 
+(* SendFrom: the same dispatch after a TransferFrom-like entry transfer *)
+Lemma cw20_dispatch_conserves w1 ta sd target n h w' l : cw20_dispatch w1 ta sd target n h = Ok w' ->
+  NoDup l -> (forall a, In a (hook_touched w1 target sd h) -> In a l) ->
+  forall y, (h = HWithdraw -> asset_eqb y (AToken ta) = false) -> sum_bal w' y l = sum_bal w1 y l.
+Proof.
+  intros H Hnd Hl y Hy. unfold cw20_dispatch in H.
+  assert (Hsd : In sd l) by (apply Hl; destruct h; cbn [hook_touched In]; auto).
+  assert (Htg : In target l) by (apply Hl; destruct h; cbn [hook_touched In]; auto).
+  destruct (w_pairs w1 target) as [ps|].
+  - eapply pair_receive_conserves; [exact H | exact Hnd | exact Hl |].
+    intros Eh Ec. rewrite <- Ec. apply Hy. exact Eh.
+  - destruct (target =? w_rtr w1) eqn:Et; [|discriminate]. apply N.eqb_eq in Et.
+    destruct h as [| |ops m to|]; try discriminate. cbn [hook_touched] in Hl.
+    eapply router_exec_ops_conserves; [exact H | exact Hnd | | exact Hsd | |].
+    + rewrite <- Et. exact Htg.
+    + intros a Ha. apply Hl. cbn [In]. right. right. apply in_app_iff. left. exact Ha.
+    + intros t ->. apply Hl. cbn [In]. right. right. apply in_app_iff. right. cbn [opt_list In]. auto.
+Qed.
+
+Lemma cw20_send_from_conserves w ta sp ow target n h w' l : cw20_send_from w ta sp ow target n h = Ok w' ->
+  NoDup l -> (forall a, In a (ow :: hook_touched w target sp h) -> In a l) ->
+  forall y, (h = HWithdraw -> asset_eqb y (AToken ta) = false) -> sum_bal w' y l = sum_bal w y l.
+Proof.
+  intros H Hnd Hl y Hy. apply cw20_send_from_inv in H. destruct H as (w1 & H1 & H).
+  pose proof (with_token_keeps _ _ _ _ H1) as (Kreg & Krtr & _).
+  assert (How : In ow l) by (apply Hl; cbn [In]; auto).
+  assert (Htg : In target l) by (apply Hl; right; destruct h; cbn [hook_touched In]; auto).
+  pose proof (tok_transfer_from_conserves _ _ _ _ _ _ _ l H1 Hnd How Htg y) as S1.
+  rewrite <- S1.
+  eapply cw20_dispatch_conserves; [exact H | exact Hnd | | exact Hy].
+  assert (E : hook_touched w1 target sp h = hook_touched w target sp h).
+  { destruct h; cbn [hook_touched]; try reflexivity. rewrite (route_pairs_reg _ _ _ Kreg). reflexivity. }
+  rewrite E. intros a Ha. apply Hl. right. exact Ha.
+Qed.
+
+Theorem tok_burn_from_other : forall w ta sp ow n w', with_token w ta (fun t => tok_burn_from t sp ow n) = Ok w' ->
+  forall y, asset_eqb y (AToken ta) = false -> forall a, bal w' y a = bal w y a.
+Proof. intros w ta sp ow n w' H. eapply with_token_other. exact H. Qed.
+
 (* ------------------------------------------------------------------------------------ *)
 (* THE theorem                                                                           *)
 (* ------------------------------------------------------------------------------------ *)
@@ -394,6 +435,12 @@ Proof.
     apply (WF_fresh_tokens w HWF). lia.
   - (* OFacAddNative *) apply same_bal_conserves. eapply fac_add_native_same_bal. exact H.
   - (* OFacMigrate *) apply same_bal_conserves. eapply fac_migrate_pair_same_bal. exact H.
+  - (* OSendFrom *)
+    eapply cw20_send_from_conserves; [exact H | exact Hnd | exact Hl |].
+    intros ->. apply not_in_single. exact Hy.
+  - (* OBurnFrom *) apply sum_same. intros a _. eapply tok_burn_from_other; [exact H|]. apply not_in_single. exact Hy.
+  - (* ODecreaseAllowance *)
+    apply tok_decrease_allowance_frame in H. apply sum_same. intros a _. apply H. intros [].
 Qed.
 
 Print Assumptions bank_send_conserves.
